@@ -193,7 +193,7 @@ pub fn dispatch(ctx: &mut Ctx, op: &str, call: &Value) -> Option<Value> {
                 let p = (&**bx as *const DynSizedStructure<BootInformationHeader>).cast::<BootInformationHeader>();
                 match unsafe { BootInformation::load(p) } {
                     Ok(bi) => out::ok(json!({"total": out::num(bi.total_size()), "ntags": out::num(bi.tags().count())})),
-                    Err(e) => out::err(&format!("{e:?}")),
+                    Err(e) => out::err_of(&e),
                 }
             }
         },
@@ -253,7 +253,7 @@ pub fn dispatch(ctx: &mut Ctx, op: &str, call: &Value) -> Option<Value> {
                 let p = (&**bx as *const DynSizedStructure<h::Multiboot2BasicHeader>).cast::<h::Multiboot2BasicHeader>();
                 match unsafe { h::Multiboot2Header::load(p) } {
                     Ok(hd) => out::ok(json!({"length": out::le(hd.length() as u64, 4), "ntags": out::num(hd.iter().count())})),
-                    Err(e) => out::err(&format!("{e:?}")),
+                    Err(e) => out::err_of(&e),
                 }
             }
         },
